@@ -3,8 +3,8 @@
    and Proofs/PolicyBusProofs.v.  Model: Policy/Policy.v (bus/policy.c, attribute
    mapping of bus/config-parser.c) and Policy/PolicyBus.v (the gate and its
    callers).  Specification: Spec/PolicySpec.v (dbus-daemon(1)). *)
-From DV Require Import Lib.Base Gen.Tables Gen.PolicyTables Wire.Names Policy.Policy Policy.PolicyBus Spec.PolicySpec
-     Proofs.PolicyProofs Proofs.PolicyBusProofs.
+From DV Require Import Lib.Base Gen.Tables Gen.PolicyTables Wire.Names Policy.Policy Policy.PolicyConfig Policy.PolicyBus
+     Spec.PolicySpec Spec.PolicyConfigSpec Proofs.PolicyProofs Proofs.PolicyConfigProofs Proofs.PolicyBusProofs.
 Local Open Scope N_scope.
 
 (* ---- 1. last matching rule decides, nothing allowed by default, every attribute as documented ----------------
@@ -138,11 +138,11 @@ Print Assumptions C06_denied_broadcast_not_delivered.
 (* "a denied method call earns its sender an AccessDenied error": full statement = [C06_denied_call_full_statement]
    (Proofs/PolicyBusProofs.v); it fails when the sender's own receive rules do not admit the error reply *)
 Theorem C06_denied_call_gets_access_denied_partial :
-  forall b s m arg d addr,
-    get_conn b s <> None -> m_dest m = Some d -> addressed_of b d = Some addr ->
+  forall e b s m arg d addr,
+    is_live b s -> m_dest m = Some d -> addressed_of b d = Some addr ->
     verdict_ok (fst (gate b (Some s) addr addr m)) = false ->
     exists b1, b_reg b1 = b_reg b /\ b_conns b1 = b_conns b /\
-      do_send b s m arg = Done b1 (if sender_admits_error b1 s m then [(s, WError DBUS_ERROR_ACCESS_DENIED_str)] else []).
+      do_send e b s m arg = Done b1 (if sender_admits_error b1 s m then [(s, WError DBUS_ERROR_ACCESS_DENIED_str)] else []).
 Proof. exact denied_call_gets_access_denied_partial. Qed.
 Print Assumptions C06_denied_call_gets_access_denied_partial.
 
@@ -152,13 +152,106 @@ Print Assumptions C06_denied_call_refuted.
 
 (* a RequestName refused by the own rules changes no ownership and produces nothing but an error for the caller *)
 Theorem C06_denied_own_changes_nothing :
-  forall b s m arg b1 out,
-    do_send b s m arg = Done b1 out ->
+  forall e b s m arg b1 out,
+    do_send e b s m arg = Done b1 out ->
     m_dest m = Some DBUS_SERVICE_DBUS_str -> m_type m = DBUS_MESSAGE_TYPE_METHOD_CALL -> obytes_is (m_member m) s_RequestName = true ->
     check_can_own (rules_of b s) arg = Some false ->
     b_reg b1 = b_reg b /\ forall c w, In (c, w) out -> c = s /\ exists e, w = WError e.
 Proof. exact denied_own_changes_nothing. Qed.
 Print Assumptions C06_denied_own_changes_nothing.
+
+(* ---- 5. construction of the policy: trees of configuration files, admission, reload --------------------------- *)
+(* For EVERY tree of configuration files (<include>, <includedir>, any nesting, absent / unreadable / circular targets,
+   several <policy> sections of every context): if the daemon loads it, the policy it has built gives every connection
+   exactly the rule list that the manual page's context order gives on the TEXTUAL INCLUSION [denote] of the tree
+   (bus_policy_merge, merge_id_hash, append_copy_of_policy_list are order-preserving appends) ... *)
+Theorem C06_config_tree_order :
+  forall ru rg its p, load_config ru rg its = LOk p ->
+    exists cfg, denote ru rg true its = DOk cfg /\
+      forall uid gids atc, client_rules p uid gids atc = spec_client_rules (cfg_rules ru rg cfg) uid gids atc.
+Proof. exact config_tree_order. Qed.
+Print Assumptions C06_config_tree_order.
+
+(* ... and it refuses to load exactly the trees whose denotation is fatal, with the same kind of error *)
+Theorem C06_config_tree_fatal :
+  forall ru rg its a, denote ru rg true its = DFatal a <-> load_config ru rg its = LErr a.
+Proof. exact config_tree_fatal. Qed.
+Print Assumptions C06_config_tree_fatal.
+
+(* against the literal page ([denote _ _ false]): equal unless an <include ignore_missing="yes"> names an EXISTING file whose
+   loading fails with file-not-found from further down (D4) *)
+Definition C06_include_literal_full_statement : Prop :=
+  forall ru rg its, denote ru rg true its = denote ru rg false its.
+
+Theorem C06_include_literal_partial :
+  forall ru rg its, no_swallow ru rg its = true -> denote ru rg true its = denote ru rg false its.
+Proof. intros ru rg. exact (proj1 (literal_include_partial ru rg)). Qed.
+Print Assumptions C06_include_literal_partial.
+
+Theorem C06_include_literal_refuted :
+  load_config (fun _ => None) (fun _ => None) w_tree_d4 = LOk policy_empty /\
+  denote (fun _ => None) (fun _ => None) false w_tree_d4 = DFatal true.
+Proof. exact literal_include_refuted. Qed.
+Print Assumptions C06_include_literal_refuted.
+
+(* user= / group= rules: the loaded policy admits a connection exactly when the last matching rule of the default contexts
+   followed by the mandatory contexts (of the textual inclusion) allows it; default: the owner of the daemon *)
+Theorem C06_admission :
+  forall ru rg its p owner uid dbg, load_config ru rg its = LOk p ->
+    exists cfg, denote ru rg true its = DOk cfg /\ allow_unix_user p owner uid dbg = spec_admit ru rg cfg owner uid dbg.
+Proof. exact admission_spec. Qed.
+Print Assumptions C06_admission.
+
+Theorem C06_connect_refused :
+  forall e b uid gids atc dbg hs,
+    allow_unix_user (b_policy b) (uid =? e_owner e) uid dbg = false ->
+    exists b1, do_connect e b uid gids atc dbg hs = Done b1 [(N.of_nat (length (b_conns b)), WRefused)] /\
+               b_policy b1 = b_policy b /\ b_reg b1 = b_reg b /\ b_pending b1 = b_pending b /\ b_next b1 = b_next b /\
+               (forall i c, get_conn b i = Some c -> get_conn b1 i = Some c).
+Proof. exact connect_refused. Qed.
+Print Assumptions C06_connect_refused.
+
+(* reload (ReloadConfig): the asking message is judged by the old policy; a tree that does not load changes nothing; a
+   tree that loads replaces the bus-wide policy and rebuilds every live connection's rule list -- and nothing else *)
+Theorem C06_reload_judged_by_old_policy :
+  forall e b s m arg, is_live b s -> m_dest m = Some DBUS_SERVICE_DBUS_str ->
+    verdict_ok (fst (gate b (Some s) None None m)) = false ->
+    exists b1 out, do_send e b s m arg = Done b1 out /\ b_policy b1 = b_policy b /\ b_conns b1 = b_conns b.
+Proof. exact reload_judged_by_old_policy. Qed.
+Print Assumptions C06_reload_judged_by_old_policy.
+
+Theorem C06_reload_failed :
+  forall e b s m a, load_config (e_ru e) (e_rg e) (b_files b) = LErr a -> exists out, do_reload e b s m = HErr b out.
+Proof. exact reload_failed. Qed.
+Print Assumptions C06_reload_failed.
+
+Theorem C06_reload_effect :
+  forall e b s m p, load_config (e_ru e) (e_rg e) (b_files b) = LOk p ->
+    (exists out, do_reload e b s m = HOk (reloaded e b p) out) /\
+    b_reg (reloaded e b p) = b_reg b /\ b_pending (reloaded e b p) = b_pending b /\
+    forall i c, get_conn b i = Some c ->
+      exists c', get_conn (reloaded e b p) i = Some c' /\
+        c_alive c' = c_alive c /\ c_name c' = c_name c /\ c_sig c' = c_sig c /\ c_eav c' = c_eav c /\
+        c_uid c' = c_uid c /\ c_gids c' = c_gids c /\
+        (c_alive c = true -> c_rules c' = e_mk e p (c_uid c) (c_gids c) (c_atc c)).
+Proof. exact reload_effect. Qed.
+Print Assumptions C06_reload_effect.
+
+(* from the next message on every live connection decides by the manual page applied to the NEW tree *)
+Theorem C06_reload_decides_by_new_config :
+  forall ru rg b p i c,
+    load_config ru rg (b_files b) = LOk p -> get_conn b i = Some c -> c_alive c = true ->
+    exists cfg, denote ru rg true (b_files b) = DOk cfg /\
+      forall rules, rules = spec_client_rules (cfg_rules ru rg cfg) (c_uid c) (c_gids c) (c_atc c) ->
+      (forall r, In r rules -> catch_all_c r = true -> universal r = true) ->
+      forall reg mm, reg_wf reg -> msg_wf mm = true ->
+        (forall rr eav recv,
+            check_can_send (rules_of (reloaded (daemon_env ru rg) b p) i) rr recv reg mm = spec_can_send dev_code rules (mkSendCtx rr eav recv reg) mm) /\
+        (forall rr snd addressed proposed,
+            check_can_receive (rules_of (reloaded (daemon_env ru rg) b p) i) reg rr snd addressed proposed mm =
+            spec_can_receive dev_code rules (mkRecvCtx rr (is_eavesdropping addressed proposed mm) snd reg) mm).
+Proof. exact reload_decides_by_new_config. Qed.
+Print Assumptions C06_reload_decides_by_new_config.
 
 (* ---- non-vacuity ------------------------------------------------------------------------------------------- *)
 (* the hypotheses of the partial theorems are satisfiable, and by rule lists that decide something *)
@@ -199,3 +292,27 @@ Example C06_ex_context_order :
   spec_client_rules [(CMandatory, [w_deny_send_eav]); (CUser 7, [w_allow_send_eav]); (CDefault, [w_allow_send])] 7 [] false =
   [w_allow_send; w_allow_send_eav; w_deny_send_eav].
 Proof. reflexivity. Qed.
+
+(* a tree with a nested include, an includedir with a non-.conf and a broken file, loads and orders rules as documented *)
+Definition ex_own (allow : bool) (name : bytes) : bool * attrs :=
+  (allow, mkAttrs None None None None None None None None None None None None None None None None None None None (Some name) None None None None).
+Definition ex_user_rule (allow : bool) (name : bytes) : bool * attrs :=
+  (allow, mkAttrs None None None None None None None None None None None None None None None None None None None None None (Some name) None None).
+Definition ex_tree : cfg_items :=
+  ICons (IPolicy CDefault [ex_own true [97]; ex_user_rule false [42]])
+  (ICons (IInclude false (TFile (ICons (IPolicy CMandatory [ex_own false [98]]) (ICons (IInclude true TMissing) INil))))
+  (ICons (IIncludeDir (DCons false (TFile (ICons (IPolicy CDefault [ex_own true [99]]) INil))
+                      (DCons true TBroken
+                      (DCons true (TFile (ICons (IPolicy CDefault [ex_own true [100]; ex_user_rule true [114]]) INil)) DNil))))
+  (ICons (IPolicy (CUser 5) [ex_own true [101]]) INil))).
+Definition ex_ru : name_resolver := fun n => if bytes_eqb n [114] then Some 0 else None.
+
+Example C06_ex_tree :
+  exists p, load_config ex_ru (fun _ => None) ex_tree = LOk p /\
+    map r_name (client_rules p 5 [] false) = [Some [97]; Some [100]; Some [101]; Some [98]] /\
+    no_swallow ex_ru (fun _ => None) ex_tree = true /\
+    allow_unix_user p false 0 (Some [0]) = true /\ allow_unix_user p true 7 (Some [7]) = false.
+Proof. eexists. split; [vm_compute; reflexivity|]. repeat split; vm_compute; reflexivity. Qed.
+
+Example C06_ex_d4_class : no_swallow (fun _ => None) (fun _ => None) w_tree_d4 = false.
+Proof. vm_compute. reflexivity. Qed.
